@@ -243,31 +243,47 @@ def replay(ob):
     with s2 spelled exactly like s1)."""
     if ob.id != "C13.ctor.is_covered_by.literal_equality":
         return None, dict(note="no CLI replay for this obligation")
-    pairs = []
-    for m in re.finditer(r'Float\(([0-9.]+)\) vs Float\(([0-9.]+)\): is_covered_by = false, same binary64 value = true', ob.detail or ""):
-        pairs.append((m.group(1), m.group(2)))
-    pairs = [("1.0", "1.00")] + [pr for pr in pairs if pr != ("1.0", "1.00")]  # the property's own example first
-    info = dict(pairs=pairs[:6])
+    same_pairs, diff_pairs = [], []
+    for m in re.finditer(r'Float\(([0-9.]+)\) vs Float\(([0-9.]+)\): is_covered_by = (true|false), same binary64 value = (true|false)', ob.detail or ""):
+        (same_pairs if m.group(4) == 'true' else diff_pairs).append((m.group(1), m.group(2)))
+    if same_pairs:
+        same_pairs = [("1.0", "1.00")] + [pr for pr in same_pairs if pr != ("1.0", "1.00")]  # the property's own example first
+    info = dict(same_value_pairs=same_pairs[:6], different_value_pairs=diff_pairs[:6])
     tried = []
-    for s1, s2 in pairs[:6]:
+
+    def run(s1, s2):
+        prog = _match_program(s1, s2)
+        out, err, rc = abra_cli.run_program(prog)
+        return prog, re.sub(r'\x1b\[[0-9;]*m', '', out + err)
+
+    # direction 1: two spellings of ONE value must make the second arm redundant
+    for s1, s2 in same_pairs[:6]:
         try:
             if float(s1) != float(s2):
                 continue
         except ValueError:
             continue
-        prog = _match_program(s1, s2)
-        out, err, rc = abra_cli.run_program(prog)
-        txt = re.sub(r'\x1b\[[0-9;]*m', '', out + err)
-        control = _match_program(s1, s1)
-        cout, cerr, crc = abra_cli.run_program(control)
-        ctxt = re.sub(r'\x1b\[[0-9;]*m', '', cout + cerr)
-        reported = "redundant" in txt
-        control_reported = "redundant" in ctxt
+        prog, txt = run(s1, s2)
+        control, ctxt = run(s1, s1)
+        reported, control_reported = "redundant" in txt, "redundant" in ctxt
         tried.append(dict(program=prog, output=txt[:300], redundancy_reported=reported, control_reported=control_reported))
         if not reported and control_reported:
             ob.cex = dict(s1=s1, s2=s2)
-            info.update(tried=tried, failing_input=dict(program=prog, output=txt[:300],
-                                                        control_program=control, control_output=ctxt[:200]))
+            info.update(tried=tried, failing_input=dict(program=prog, output=txt[:300], control_program=control, control_output=ctxt[:200]))
+            return True, info
+    # direction 2: spellings of two DIFFERENT values must NOT be reported redundant
+    for s1, s2 in diff_pairs[:6]:
+        try:
+            if float(s1) == float(s2):
+                continue
+        except ValueError:
+            continue
+        prog, txt = run(s1, s2)
+        reported = "redundant" in txt
+        tried.append(dict(program=prog, output=txt[:300], redundancy_reported=reported, expected="accepted: the two literals are different values"))
+        if reported:
+            ob.cex = dict(s1=s1, s2=s2)
+            info.update(tried=tried, failing_input=dict(program=prog, output=txt[:300]))
             return True, info
     info['tried'] = tried
     return (False if tried else None), info
